@@ -1,6 +1,123 @@
 import SigpyVerif.Model.Py
 import SigpyVerif.Model.Proto
+import SigpyVerif.Model.C16
 namespace SigpyVerif.Drv.C16
+open SigpyVerif SigpyVerif.Proto SigpyVerif.C16
+
+/-- Gaussian rationals -/
+structure CR where
+  re : Rat
+  im : Rat
+  deriving BEq
+
+instance : Add CR := ⟨fun a b => ⟨a.re + b.re, a.im + b.im⟩⟩
+instance : Mul CR := ⟨fun a b => ⟨a.re * b.re - a.im * b.im, a.re * b.im + a.im * b.re⟩⟩
+instance : Zero CR := ⟨⟨0, 0⟩⟩
+def CR.conj (a : CR) : CR := ⟨a.re, -a.im⟩
+
+def isSquareNat (n : Nat) : Bool := n.sqrt * n.sqrt == n
+/-- exact square root of a non-negative rational that is a perfect square -/
+def ratSqrt? (q : Rat) : Option Rat :=
+  if q.num < 0 then none
+  else if isSquareNat q.num.toNat && isSquareNat q.den then some ((q.num.toNat.sqrt : Rat) / (q.den.sqrt : Rat))
+  else none
+def crSqrt (z : CR) : CR := ⟨(ratSqrt? z.re).getD 0, 0⟩
+
+def chunk {β} (n : Nat) : Nat → List β → List (List β)
+  | 0, _ => []
+  | rows + 1, l => l.take n :: chunk n rows (l.drop n)
+
+def ofPairs (l : List (Rat × Rat)) : List CR := l.map fun p => ⟨p.1, p.2⟩
+def fmtMat (m : List (List CR)) : String :=
+  let flat := m.flatten.map fun z => (z.re, z.im)
+  s!"ok {m.length},{(m.headD []).length} | {fmtCRatList flat}"
+
+def optInt (toks : List String) (k : String) : Option (Option Int) :=
+  match kv toks k with
+  | none => none
+  | some "none" => some none
+  | some s => (parseInt? s).map some
+
+/-- weights of the request: `wsh` = shape of the weights array as given to `Sense`, data `w` (rationals,
+    perfect squares); classified by the GENERATED `weights_per_coil` test exactly as the source does -/
+def getWeights (toks : List String) (n K : Nat) : Except String (Weights CR) :=
+  match kv toks "wsh" with
+  | none => .error "err bad-op"
+  | some "none" => .ok .none
+  | some s =>
+    match parseIntList? s, (kv toks "w").bind parseRatList?, (kv toks "kspnd").bind parseInt? with
+    | some wsh, some w, some kspnd =>
+      if w.any (fun q => (ratSqrt? q).isNone) then .error "err inexact" else
+      let wc : List CR := w.map fun q => ⟨q, 0⟩
+      let per := Gen.senseWeightsPerCoil wsh.length (wsh.headD 0) kspnd n
+      if per then
+        if wc.length = n * K then .ok (.perCoil (chunk K n wc)) else .error "err shape"
+      else
+        if wc.length = K then .ok (.shared wc) else .error "err shape"
+    | _, _, _ => .error "err bad-op"
+
+def getOpts (toks : List String) : Except String (SenseOpts CR × Nat × Nat × Nat) :=
+  let getN (k : String) := ((kv toks k).bind parseInt?).map Int.toNat
+  let getC (k : String) := ((kv toks k).bind parseCRatList?).map ofPairs
+  match getN "n", getN "R", getN "K", optInt toks "b", getC "mps", getC "F" with
+  | some n, some R, some K, some b, some mps, some F =>
+    if mps.length ≠ n * R ∨ F.length ≠ K * R then .error "err size" else
+    match getWeights toks n K with
+    | .error e => .error e
+    | .ok w => .ok ({ mps := chunk R n mps, F := chunk R K F, weights := w, batch := b, sqrt := crSqrt }, n, R, K)
+  | _, _, _, _, _, _ => .error "err bad-op"
+
+def leafName : Leaf CR → String
+  | .multiplyMaps _ => "S"
+  | .fourier _ _ _ => "F"
+  | .multiplyWShared _ => "P"
+  | .multiplyWCoil _ => "Q"
+
+def fmtSetup (s : ReconSetup) : String :=
+  let ws := match s.wsource with | .none => "none" | .given => "given" | .estimated => "estimated"
+  s!"ok ws={ws} aw={fmtBool s.aWeighted} yw={fmtBool s.yWeighted} half={fmtBool s.yExpHalf} l2={fmtBool s.l2} prox={if s.prox.isEmpty then "-" else ",".intercalate s.prox} g={fmtBool s.hasG}"
+
 /-- protocol handler for property C16 (tokens after the property id). -/
-def handle (_toks : List String) : String := "err bad-op"
+def handle (toks : List String) : String :=
+  match toks.head? with
+  | some "fwd" =>
+    match getOpts toks, ((kv toks "x").bind parseCRatList?).map ofPairs with
+    | .ok (o, _, R, _), some x =>
+      if x.length ≠ R then "err size" else fmtMat ((sense o).apply [x])
+    | .error e, _ => e
+    | _, _ => "err bad-op"
+  | some "adj" =>
+    match getOpts toks, ((kv toks "y").bind parseCRatList?).map ofPairs with
+    | .ok (o, n, _, K), some y =>
+      if y.length ≠ n * K then "err size" else fmtMat ((sense o).adj CR.conj (chunk K n y))
+    | .error e, _ => e
+    | _, _ => "err bad-op"
+  | some "tree" =>
+    -- structure of the operator: per chain the leaf letters and the coil indices it receives
+    match getOpts toks with
+    | .ok (o, n, _, _) =>
+      let coils := batchCoils (n : Int) o.batch
+      let chains : List (Chain CR) := match sense o with
+        | .single c => [c]
+        | .vstack cs => cs
+      let kind := match sense o with | .single _ => "C" | .vstack _ => "V"
+      let parts := (List.zip chains coils).map fun (c, idx) =>
+        s!"{String.join (c.map leafName)}:{fmtIntList idx}:{c.rows}"
+      s!"ok {kind} {";".intercalate parts}"
+    | .error e => e
+  | some "recon" =>
+    let kind := match kv toks "kind" with
+      | some "SenseRecon" => some ReconKind.senseRecon
+      | some "L1WaveletRecon" => some ReconKind.l1Wavelet
+      | some "TotalVariationRecon" => some ReconKind.totalVariation
+      | _ => none
+    match kind, (kv toks "wg").bind parseInt?, (kv toks "cn").bind parseInt? with
+    | some k, some wg, some cn => fmtSetup (reconSetup k (wg != 0) (cn != 0))
+    | _, _, _ => "err bad-op"
+  | some "estw" =>
+    -- `_estimate_weights`: 1 where rss > 0
+    match (kv toks "rss").bind parseRatList? with
+    | some r => s!"ok {fmtIntList (r.map fun q => if Gen.estWeightsSampled q then 1 else 0)}"
+    | none => "err bad-op"
+  | _ => "err bad-op"
 end SigpyVerif.Drv.C16
